@@ -12,6 +12,7 @@ import (
 	"strings"
 	"sync"
 	"time"
+	"unsafe"
 )
 
 // Model is one counterexample / path witness.
@@ -195,6 +196,23 @@ func drain(c *net.UDPConn) *udpPeer {
 		p.got = append(p.got, append([]byte{}, buf[:n]...))
 	}
 	return p
+}
+
+// ShiftWall returns t with its wall-clock reading moved by sec seconds and its monotonic reading
+// (if any) unchanged - what a later clock reading looks like after the system clock was stepped.
+func ShiftWall(t time.Time, sec int64) time.Time {
+	type rep struct {
+		wall uint64
+		ext  int64
+		loc  *time.Location
+	}
+	r := (*rep)(unsafe.Pointer(&t))
+	if r.wall&(1<<63) != 0 {
+		r.wall = uint64(int64(r.wall) + sec<<30) // seconds since 1885 live in bits 30..62
+	} else {
+		r.ext += sec
+	}
+	return t
 }
 
 // ---- sinks: a destination address to hand to code that dials by itself ----------
